@@ -589,6 +589,14 @@ META = {
 }
 
 
+# ---- stealing paths (wait_or_add_new, victim lists) and shared_priority_queue_scheduler placement/polling: third sub-agent ----------
+exec(open("/verif/specs/C10/steal_spec.py").read())
+UNITS += STEAL_UNITS
+for _k in ("trusted_base", "assumptions", "not_decided"):
+    META[_k] = list(META.get(_k, [])) + list(STEAL_META.get(_k, []))
+STATIC = list(globals().get("STATIC", [])) + list(STEAL_STATIC)
+
+
 # ---- C02 units reused (added after seeded change C10-3 was missed): "a hinted task runs every phase on the hinted worker" needs every
 # ---- re-queue of a woken task to carry the worker it ran on: set_thread_state passes the caller's hint to schedule_thread, and the
 # ---- retry helper set_active_state re-issues the request with hint = thread(last worker).  Same templates, same contracts as C02.
